@@ -18,6 +18,9 @@ from nl.model import short
 from props import repl, C09, C10
 
 RULES = {
+    'C04.i': 'every message is registered and fanned out under its own id: in the replication loop the id an oplog arm yields comes from '
+             'the appender called with the rp id (or is the rp id itself), never a constant — two messages pending under one id are '
+             'delivered as two copies of the first',
     'C04.h': 'the rp wrapper carries the wrapped command byte for byte: the parser of a wrapper word stores the rest of the line in the '
              'request without a string transformation (only the removal of line ends); a trim there changes values on the receiving '
              'nodes only, the originator keeps what the client sent',
@@ -49,6 +52,7 @@ NO_VERSION = ('CreateUser', 'SetPermissions')
 def run(ck, m):
     _run(ck, m)
     wrapper_verbatim(ck, m)
+    own_id_rule(ck, m)
 
 
 def _run(ck, m):
@@ -432,3 +436,50 @@ def wrapper_verbatim(ck, m):
                               'in blanks (or "\\r" from a CRLF client, or `set-permissions u r`) differs between the node that took the client\'s '
                               'command and the nodes that received it' % bad, '%s:%s' % (b.file, b.line))
     ck.floor('C04.h', n, 1, 'text fields of wrapper requests')
+
+
+
+def own_id_rule(ck, m):
+    P = m.prog
+    lb, lsw = repl.fanout_loop(m)
+    osw = m.request_switch(lb)
+    if not osw:
+        ck.undecided('C04.i', short(lb.id), 'oplog-switch', 'no switch over Request in the replication loop')
+        return
+    helpers = {h.id: h for h in P.private_helpers(lb)}
+    n = 0
+    for v, tb in sorted(osw[1].items()):
+        if tb == osw[2]:
+            continue
+        others = {x for k_, x in osw[1].items() if x != tb} | {osw[2]}
+        region = {x for x in lb.reachable() if lb.dominates(tb, x) and not any(lb.dominates(o, x) for o in others)}
+        bodies = [(lb, region)]
+        for x in sorted(region):
+            tx = lb.term(x)
+            if tx['k'] == 'call' and callee(tx) in helpers:
+                hb = helpers[callee(tx)]
+                bodies.append((hb, set(hb.reachable())))
+                bodies += [(P.bodies[k], set(P.bodies[k].reachable())) for k in P.bodies if k.startswith(hb.id + '::{closure')]
+            for s in lb.blocks[x]['s']:
+                if s['k'] == 'assign' and s['r']['k'] == 'agg' and s['r'].get('ak') == 'closure' and s['r']['def'] in P.bodies:
+                    cb = P.bodies[s['r']['def']]
+                    bodies.append((cb, set(cb.reachable())))
+        writes = any(b_.term(x)['k'] == 'call' and 'op_log' in callee(b_.term(x)) for b_, reg in bodies for x in reg)
+        if not writes:
+            continue
+        n += 1
+        consts = []
+        for b_, reg in bodies:
+            for x in reg:
+                for s in b_.blocks[x]['s']:
+                    if s['k'] == 'assign' and s['r']['k'] == 'agg' and s['r'].get('adt') == 'std::result::Result' and s['r'].get('variant') == 'Ok':
+                        for op in s['r']['ops']:
+                            if 'k' in op and isinstance(op['k'].get('v'), int) and not isinstance(op['k'].get('v'), bool) and str(op['k'].get('ty', '')) == 'u64':
+                                consts.append((b_.loc(x), op['k']['v']))
+        ck.ob('C04.i', short(lb.id), 'own-id:%s' % v, not consts,
+              'the %s arm yields the id returned by the appender for the message\'s own id' % v if not consts else
+              'the %s arm can yield the constant id %s (%s): every message of this kind is registered under the same pending id, and '
+              'register_pending_opp hands out the text already stored for an id that is still pending — two commands issued before the first '
+              'is acknowledged reach the secondaries as two copies of the first' % (v, sorted({c for _, c in consts}), consts[0][0]),
+              lb.loc(tb))
+    ck.floor('C04.i', n, 5, 'oplog arms of the replication loop')
